@@ -28,7 +28,7 @@ fn spec(t: Tier) -> Spec {
     Spec {
         id: "C05",
         level: "model_checking",
-        rule: format!("default mode: every string of <= {a} symbols over {{space,tab,newline,',\",\\,a,b,é,à}} is read by the real WhitespaceDelimitedArgumentReader (hook H1) in one read() and compared with the reference tokenizer (bytes and line-end flags); every string of <= {b} symbols is read under EVERY composition of its bytes into read() results (incl. 1-byte reads, cuts inside é, inside quotes, after a backslash) and must give the single-read answer; buffer edge: 'a'*k ++ s for every 4090 <= k+|s| <= 4100 and every s of <= {c} symbols with 0, 1 and 2 extra cuts at every position within +-4 of 4096; EINTR injected before each read (must be retried), EIO (must propagate). -0 / -d x / -d '\\n': strings <= {d} over {{a,b,NUL,x,newline,',\",\\,space,0xFF,é}} in one read, <= {e} under every chunking, and 'a'*k ++ s around the BufReader's 8192 edge. state = (bytes consumed, reader's pending/escape state) explored through every environment schedule; transitions = read() answers. Scale slice: three streams of 20-40 KB (arguments of cycling lengths incl. 5000 and 9000 bytes, a 6000-byte quoted argument with blanks, tabs and single quotes, backslash-newline, é/à, a run of 4097 blanks / 8193 delimiters) in one read(), in equal chunks of 1, 7, 4095..4097, 8191..8193 bytes and with each of the first 24 refills shifted by one byte. Binary slice: strings <= 3 piped into the xargs binary byte-by-byte and in one write."),
+        rule: format!("default mode: every string of <= {a} symbols over {{space,tab,newline,',\",\\,a,b,é,à}} is read by the real WhitespaceDelimitedArgumentReader (hook H1) in one read() and compared with the reference tokenizer (bytes and line-end flags); every string of <= {b} symbols is read under EVERY composition of its bytes into read() results (incl. 1-byte reads, cuts inside é, inside quotes, after a backslash) and must give the single-read answer; buffer edge: 'a'*k ++ s for every 4090 <= k+|s| <= 4100 and every s of <= {c} symbols with 0, 1 and 2 extra cuts at every position within +-4 of 4096; EINTR injected before each read (must be retried), EIO (must propagate). -0 / -d x / -d '\\n': strings <= {d} over {{a,b,NUL,x,newline,',\",\\,space,0xFF,é}} in one read, <= {e} under every chunking, and 'a'*k ++ s around the BufReader's 8192 edge. state = (bytes consumed, reader's pending/escape state) explored through every environment schedule; transitions = read() answers. Scale slice: three streams of 20-40 KB (arguments of cycling lengths incl. 5000, 9000 and 20000 bytes, a 6000-byte quoted argument with blanks, tabs and single quotes, backslash-newline, é/à, a run of 4097 blanks / 8193 delimiters) in one read(), in equal chunks of 1, 7, 4095..4097, 8191..8193 bytes and with each of the first 24 refills shifted by one byte. Binary slice: strings <= 3 piped into the xargs binary byte-by-byte and in one write."),
         bound: json!({"single_read_len": a, "all_chunkings_len": b, "edge_suffix_len": c, "byte_mode_len": d, "byte_mode_chunk_len": e}),
         assumptions: vec![
             "set aside (run for determinism only): strings ending in a lone unquoted backslash, a newline inside quotes, CR/VT/FF".into(),
@@ -450,7 +450,7 @@ fn run(ctx: &mut Ctx) {
 }
 
 /// Streams of tens of kilobytes (several buffer refills): arguments of cycling lengths with one of
-/// 5000 and one of 9000 bytes (longer than the 4096-byte buffer), a quoted argument of 6000 bytes
+/// 5000, one of 9000 and one of 20000 bytes (longer than one and than two buffers), a quoted argument of 6000 bytes
 /// holding blanks, tabs and single quotes, a backslash-newline pair, é/à, runs of 3 and of 4097 separators.
 /// Read in one read(), and in equal chunks of 1, 7, 4095, 4096, 4097, 8191, 8192 and 8193 bytes,
 /// and with each of the first 24 refill positions shifted by one byte; default mode against the
@@ -461,6 +461,7 @@ fn scale_slice(ctx: &mut Ctx, reads: &std::rc::Rc<std::cell::Cell<u64>>, states:
         let len = match i {
             40 => 5000,
             700 => 9000,
+            1100 => 20000,
             _ => 1 + (i * 5) % 23,
         };
         if i == 300 {
@@ -498,6 +499,7 @@ fn scale_slice(ctx: &mut Ctx, reads: &std::rc::Rc<std::cell::Cell<u64>>, states:
         let len = match i {
             40 => 5000,
             700 => 9000,
+            1100 => 20000,
             _ => (i * 5) % 23,
         };
         by.extend((0..len).map(|j| match j % 13 {
